@@ -49,6 +49,14 @@ def m_borrow_mut(ex, a, t):
     rc = target(a[0])
     if rc.borrow != 0: raise Panic('already borrowed')
     rc.borrow = -1; return RefMutObj(rc)
+class RefObj:
+    def __init__(self, rc): self.rc = rc
+    def model_drop(self, ex): self.rc.borrow -= 1
+def m_borrow(ex, a, t):
+    rc = target(a[0])
+    if rc.borrow < 0: raise Panic('already mutably borrowed')
+    rc.borrow += 1; return RefObj(rc)
+def m_ref_deref(ex, a, t): return Ref(LCell(target(a[0]).rc.value))
 def m_refmut_deref(ex, a, t): return Ref(LCell(target(a[0]).rc.value))
 def m_vd_new(ex, a, t): return DequeObj()
 def m_vd_push_back(ex, a, t): target(a[0]).items.append(a[1]); return UNIT
@@ -105,7 +113,7 @@ MODELS = [
     (r'(?:^|::)Rc::<.*>::new$', m_rc_new), (r'^<Rc<.*> as Clone>::clone$', m_rc_clone), (r'^<Rc<.*> as Deref>::deref$', m_rc_deref),
     (r'(?:^|::)Rc::<.*>::strong_count$', m_rc_strong),
     (r'(?:^|::)RefCell::<.*>::new$', m_refcell_new), (r'(?:^|::)RefCell::<.*>::borrow_mut$', m_borrow_mut),
-    (r'^<RefMut<.*> as Deref(Mut)?>::deref(_mut)?$', m_refmut_deref),
+    (r'^<RefMut<.*> as Deref(Mut)?>::deref(_mut)?$', m_refmut_deref), (r'(?:^|::)RefCell::<.*>::borrow$', m_borrow), (r'^<(std::cell::)?Ref<.*> as Deref>::deref$', m_ref_deref),
     (r'(?:^|::)VecDeque::<.*>::new$', m_vd_new), (r'(?:^|::)VecDeque::<.*>::push_back$', m_vd_push_back),
     (r'(?:^|::)VecDeque::<.*>::pop_front$', m_vd_pop_front), (r'(?:^|::)VecDeque::<.*>::clear$', m_vd_clear),
     (r'^<Cell<.*> as Default>::default$', m_cell_default), (r'(?:^|::)Cell::<.*>::new$', m_cell_new),
